@@ -31,7 +31,22 @@ type Variant struct {
 	Applied  bool     `json:"applied"`
 	Detected bool     `json:"detected"`
 	Reports  []string `json:"reports,omitempty"`
+	Semantic int      `json:"reports_by_semantic_rules"`
 	Note     string   `json:"note,omitempty"`
+}
+
+// IsChangeDetectionReport: is this FAIL line an "undecided" of a reviewed-form digest rule (C01.n, the .z rules,
+// C17.e)?  Those rules compare a function with the form that was reviewed; they do not state a violation.
+func IsChangeDetectionReport(ln string) bool {
+	fs := strings.Fields(ln)
+	if len(fs) < 3 || fs[1] != "undecided" {
+		return false
+	}
+	rule := fs[2]
+	if i := strings.Index(rule, "|"); i >= 0 {
+		rule = rule[:i]
+	}
+	return strings.HasSuffix(rule, ".z") || rule == "C01.n" || rule == "C17.e"
 }
 
 func copyTree(src, dst string) error {
@@ -77,6 +92,15 @@ func RunSelftests(prop, repoRoot, verifDir string) []Variant {
 	for _, f := range bfiles {
 		b, _ := os.ReadFile(f)
 		add("benign", "benign/"+filepath.Base(f), b, false)
+	}
+	// property-preserving FEATURE changes (behaviour of fc changes, every property still holds): the semantic rules
+	// must stay silent; the change-detection rules (reviewed-form digests: *.n, *.z, C17.e) may report the edited
+	// functions as "undecided" — that is what they are for, and it is recorded as such, not as silence
+	ffiles, _ := filepath.Glob(filepath.Join(verifDir, "benign_feature", "*.diff"))
+	sort.Strings(ffiles)
+	for _, f := range ffiles {
+		b, _ := os.ReadFile(f)
+		add("feature", "benign_feature/"+filepath.Base(f), b, false)
 	}
 	// reversals of fix commits
 	if kf, err := os.Open(filepath.Join(verifDir, "known_findings.txt")); err == nil {
@@ -161,6 +185,9 @@ func RunSelftests(prop, repoRoot, verifDir string) []Variant {
 			v.Detected = code == 1
 			for _, ln := range strings.Split(string(out), "\n") {
 				if strings.HasPrefix(ln, "FAIL ") {
+					if !IsChangeDetectionReport(ln) {
+						v.Semantic++
+					}
 					ln = strings.ReplaceAll(ln, repo+"/", "")
 					if len(ln) > 260 {
 						ln = ln[:260] + "…"
